@@ -448,6 +448,10 @@ func VerifH_proxy_intercept() {
 	}
 	obs := &vfBackendObs{}
 	withOpts := vfBool()
+	replace := 0
+	if withOpts && !cs && !ss && !fail {
+		replace = vfChoice(3)
+	}
 	var ucalls, scalls int
 	var umethod, smethod string
 	var sClient, sServer bool
@@ -458,7 +462,20 @@ func VerifH_proxy_intercept() {
 			UnaryServerInterceptorOption(func(ctx context.Context, req interface{}, info *grpc.UnaryServerInfo, handler grpc.UnaryHandler) (interface{}, error) {
 				ucalls++
 				umethod = info.FullMethod
-				return handler(ctx, req)
+				if replace == 2 {
+					// answers from a cache: the handler (the backend) is not called
+					m2 := req.(proto.Message).ProtoReflect().New().Interface()
+					vfDualCodec{}.Unmarshal(vfProtoStr(1, "zz"), m2)
+					return m2, nil
+				}
+				resp, err := handler(ctx, req)
+				if replace == 1 && err == nil {
+					// replaces the reply: what the interceptor returns is what the client gets
+					m2 := resp.(proto.Message).ProtoReflect().New().Interface()
+					vfDualCodec{}.Unmarshal(vfProtoStr(1, "zz"), m2)
+					return m2, nil
+				}
+				return resp, err
 			}),
 			StreamServerInterceptorOption(func(srv interface{}, stream grpc.ServerStream, info *grpc.StreamServerInfo, handler grpc.StreamHandler) error {
 				scalls++
@@ -494,7 +511,18 @@ func VerifH_proxy_intercept() {
 		wantCode = "5"
 	}
 	vfCheck(len(gs) == 1 && gs[0] == wantCode, "the outcome of a proxied call depends on the interceptor / stats options")
-	vfCheck(obs.calls == 1, "the backend was not called exactly once")
+	if replace != 0 {
+		zz := vfProtoStr(1, "zz")
+		vfCheck(vfBytesEq(w.body, append([]byte{0, 0, 0, 0, byte(len(zz))}, zz...)), "the client of a proxied unary call did not get the reply its interceptor returned")
+		vfCheck(obs.calls == 2-replace, "an interceptor that answers without calling the handler still reached the backend (or a calling one did not)")
+		vfCover("interceptor-replaces-reply")
+	} else {
+		vfCheck(obs.calls == 1, "the backend was not called exactly once")
+		if !fail && !ss {
+			r0 := vfProtoStr(1, "r0")
+			vfCheck(vfBytesEq(w.body, append([]byte{0, 0, 0, 0, byte(len(r0))}, r0...)), "the client did not get the backend's reply")
+		}
+	}
 	if !withOpts {
 		vfCover("options-off")
 		return
